@@ -155,7 +155,7 @@ def main(tier, seed):
                  "with an independent reference encoder (layout sentence of C02 + pinned wire table) as 56-bit vector equalities "
                  "decided by z3 (QF_BV) with all operand bits free; counterexamples replayed with real ctypes")
     rep.bounds = ["every instruction class of every flavour, single command (N=1), every bank assignment as in C01",
-                  "concatenations of N=2" + (" and N=3" if tier == "thorough" else "") + " commands (representative layouts)",
+                  "concatenations of N=2" + (", N=3, 4 and 5" if tier == "thorough" else "") + " commands (representative layouts)",
                   "header: both version bytes and the 16-bit app id symbolic"]
     rep.outside = ["sequences longer than N", "values outside the field ranges (C16)"]
     rep.stubs = ["ctypes replaced by vf/cmodel.py (layout read from real ctypes twins)"]
@@ -187,7 +187,8 @@ def main(tier, seed):
         seqs = [("SetInstruction", "StoreInstruction"), ("WaitAllInstruction", "MeasBasisInstruction"),
                 ("CreateEPRInstruction", "JmpInstruction"), ("BreakpointInstruction", "ArrayInstruction")]
         if tier == "thorough":
-            seqs += [("AddmInstruction", "RetArrInstruction", "BltInstruction"), ("UndefInstruction", "RecvEPRInstruction", "LeaInstruction")]
+            seqs += [("AddmInstruction", "RetArrInstruction", "BltInstruction"), ("UndefInstruction", "RecvEPRInstruction", "LeaInstruction"),
+                     ("LoadInstruction", "SubmInstruction", "WaitAnyInstruction", "BezInstruction"), ("RetRegInstruction", "QAllocInstruction", "BneInstruction", "SubInstruction", "WaitSingleInstruction")]
         for sq in seqs:
             banks = []
             for k, cn in enumerate(sq):
